@@ -10,7 +10,10 @@ from ..astutil import call_name, calls_in, dotted, unparse, walk_local, walk_stm
 from ..errors import AnalysisError
 from ..evalx import Sym, Unknown, has_unknown, require_known
 from ..oracles import load
-from ..report import Registry, sub
+from ..report import Registry, sub, chain
+from ._helpers_rob_c1 import (
+    MiniInterp, Unsupported, bind_call_args, feasible_reachable, inline_locals, returned_values,
+)
 
 R = Registry(
     "C01",
@@ -89,54 +92,30 @@ def _tables(ctx):
 
 
 def _grouping_predicate(ctx):
-    """Read is_precedent(): returns (cmp, selfprec_exempt) where cmp(p, q) is True when the inner
-    operator with precedence p is GROUPED under an outer operator with precedence q."""
+    """Evaluate is_precedent() itself: returns grouped(inner, outer) -> bool for operator short names, computed
+    by interpreting the function body (and the module predicates it calls) on the evaluated module tables for
+    that concrete operator pair.  Nothing is assumed about the shape of the function: elif chains, early
+    returns, named locals for the two lookups, an inverted comparison or an extracted module helper all
+    evaluate to the same truth table; a construct the interpreter does not know is an analysis error."""
     f = ctx.func(f"{OPS}::is_precedent")
-    params = f.params
-    ctx.require(len(params) >= 2, "is_precedent signature changed")
-    op_p, ag_p = params[0], params[1]
-    cmp_node = None
-    for n in walk_local(f.node):
-        if isinstance(n, ast.Compare) and len(n.ops) == 1 and isinstance(n.ops[0], (ast.LtE, ast.Lt, ast.GtE, ast.Gt)):
-            txtl, txtr = unparse(n.left), unparse(n.comparators[0])
-            if "_PRECEDENCE" in txtl and "_PRECEDENCE" in txtr:
-                cmp_node = n
-    ctx.require(cmp_node is not None, "is_precedent: no comparison of two _PRECEDENCE lookups found")
+    ctx.require(len([p for p in f.params]) >= 2, "is_precedent signature changed")
+    m = f.module
+    interp = MiniInterp(ctx, m)
+    prec = require_known(ctx.ev.module_value(m, "_PRECEDENCE"), "_PRECEDENCE")
+    syms = {k.short: k for k in prec if isinstance(k, Sym)}
+    memo = {}
 
-    def first_arg(e):
-        for c in calls_in(e):
-            if (call_name(c) or "").endswith("_PRECEDENCE.get") and c.args:
-                return unparse(c.args[0])
-        return None
+    def grouped(p: str, q: str) -> bool:
+        if (p, q) not in memo:
+            try:
+                v = interp.call(f, [syms[p], syms[q]])
+            except Unsupported as e:
+                raise AnalysisError(f"is_precedent({p}, {q}) cannot be evaluated: {e} (unknown idiom)")
+            ctx.require(isinstance(v, bool), f"is_precedent({p}, {q}) evaluates to {v!r}, not a bool")
+            memo[(p, q)] = v
+        return memo[(p, q)]
 
-    la, ra = first_arg(cmp_node.left), first_arg(cmp_node.comparators[0])
-    ctx.require({la, ra} == {op_p, ag_p}, f"is_precedent compares {la} with {ra}, expected {op_p}/{ag_p}")
-    o = type(cmp_node.ops[0])
-    if la == ag_p:  # against OP operator  -> flip
-        o = {ast.LtE: ast.GtE, ast.Lt: ast.Gt, ast.GtE: ast.LtE, ast.Gt: ast.Lt}[o]
-    # is the comparison negated (`not (a > b)`)?
-    pm = f.module.parents()
-    par = pm.get(cmp_node)
-    neg = False
-    while par is not None and not isinstance(par, ast.stmt):
-        if isinstance(par, ast.UnaryOp) and isinstance(par.op, ast.Not):
-            neg = not neg
-        par = pm.get(par)
-    table = {ast.LtE: lambda p, q: p <= q, ast.Lt: lambda p, q: p < q, ast.GtE: lambda p, q: p >= q, ast.Gt: lambda p, q: p > q}
-    base = table[o]
-    cmpf = (lambda p, q: not base(p, q)) if neg else base
-    # the returning statement must return the comparison's truth (not its negation through another path)
-    # natural-self-precedent exemption
-    exempt = False
-    for n in walk_local(f.node):
-        if isinstance(n, ast.If):
-            t = unparse(n.test)
-            if "is_natural_self_precedent" in t and f"{op_p} is {ag_p}" in t.replace("(", "").replace(")", ""):
-                rets = [s for s in n.body if isinstance(s, ast.Return)]
-                if rets and isinstance(rets[0].value, ast.Constant) and rets[0].value.value is False:
-                    exempt = True
-    desc = f"group iff prec(inner) {'not ' if neg else ''}{ {ast.LtE:'<=',ast.Lt:'<',ast.GtE:'>=',ast.Gt:'>'}[o] } prec(outer)"
-    return cmpf, exempt, desc
+    return grouped
 
 
 # ---------------------------------------------------------------------- rendering classification
@@ -454,8 +433,7 @@ def _levels(grammar: List[List[str]]) -> Dict[str, int]:
              "backend grammar")
 def r1(ctx):
     m, P, assoc, nsp = _tables(ctx)
-    cmpf, exempt, desc = _grouping_predicate(ctx)
-    ctx.note(f"extracted grouping predicate: {desc}; natural-self-precedent exemption={exempt}")
+    is_grouped = _grouping_predicate(ctx)
     grammar = load("sql_operator_grammar.json")
     targets = [("standard", f"{CMP}::SQLCompiler")] + sorted(DIALECTS.items())
     ops = sorted(o for o in P if o in IN_SCOPE)
@@ -470,11 +448,7 @@ def r1(ctx):
                 continue
             _, outer_q, via_q = rend[q]
             for p in ops:  # inner
-                if p == q and exempt and p in nsp:
-                    grouped = False
-                else:
-                    grouped = cmpf(P[p], P[q])
-                if grouped or p == q:
+                if p == q or is_grouped(p, q):
                     continue  # same-operator flattening is judged by C01-R3 (associativity)
                 inner_p, _, via_p = rend[p]
                 key = f"{dname}:{q}<-{p}"
